@@ -592,7 +592,16 @@ def real_op(op, rec, pre, i, ctx):
             return built(rs.ops.group_by(mk_fn(op['f'], op.get('variant')), pipeline=inner))
         tm = mk_fn(op['tm'])
         scale = ctx.get('timescale')
-        if scale in ('datetime', 'datetime-days', 'datetime-ms'):
+        if scale == 'datetime-dst':
+            # naive datetimes around a daylight-saving change of the platform's time zone
+            # (harness/common.py runs the checks under a zone that has one): naive datetimes
+            # are compared by wall-clock arithmetic, the zone must not matter
+            import datetime
+            unit = datetime.timedelta(minutes=30)
+            t0 = datetime.datetime(2021, 3, 28, 0, 30)
+            tmf = lambda x: t0 + unit * tm(x)
+            conv = lambda n: None if n < 0 else unit * n
+        elif scale in ('datetime', 'datetime-days', 'datetime-ms'):
             # the same behaviour with datetime / timedelta: one model time unit is a second,
             # a day (durations with a `days` part), or 250 ms (sub-second durations)
             import datetime
